@@ -193,7 +193,8 @@ SELFTEST_PER_SCENARIO = 3
 def obligations(tier, seed):
     q = tier == 'quick'
     n = 4 if q else 6
-    lists = {0.01: [[0.0, 0.03, 0.06, 0.25], [0.05, 0.0599, 1.0], [0.5], [0.0, 2.0]],
+    # incl. lists that are not ascending and have a period below 6 time steps away from the head
+    lists = {0.01: [[0.0, 0.03, 0.06, 0.25], [0.05, 0.0599, 1.0], [0.5], [0.0, 2.0], [1.0, 0.03, 0.25], [0.3, 0.06, 0.045]],
              0.1: [[0.0, 1.0, 2.0], [0, 1, 2, 3], [1, 2], [0.3, 0.6, 0.61]]}
     for dt, pls in lists.items():
         for pl in pls:
